@@ -57,6 +57,7 @@ CHOICE_LISTS = [
     ["1", "0"],
     ["A", "a"],
     ["foo bar", "baz"],
+    ["", "b"],  # a member that is the empty string (reachable by its index only)
     ["a", "b", "c", "d", "e"],
 ]
 ATTEMPTS = [None, 1, 2, 3]
@@ -285,6 +286,8 @@ def ref_entry(cfg, entry):
     for p in (x.strip() for x in entry.split(",")):
         if p == "":
             open_ = True  # blank part: statement silent (reject, or ignore it)
+            if "" in cfg["choices"]:
+                alloweds.append({""})  # ... or take it for the member that is the empty string
             continue
         v, allowed = ref_part(cfg["choices"], p)
         if v == INVALID:
